@@ -122,7 +122,27 @@ pub fn execute_fsm_pipe(fsm_pipe: &FsmPipe, env: Option<&Environment>, p: &Inter
   let mut state = pattern_to_value(&fsm.start, &call_env, p)?;
   let spec = p.user_state_machine_specs.borrow().get(&fsm_id).cloned();
   validate_fsm_state_coverage(&fsm, spec.as_ref(), fsm_pipe)?;
-  execute_fsm_pipe_impl(&fsm, &mut state, &mut call_env, p)
+  let output = execute_fsm_pipe_impl(&fsm, &mut state, &mut call_env, p)?;
+  // The declared output kind is part of the machine's interface: check what is returned.
+  #[cfg(feature = "kind_annotation")]
+  if let Some(output_annotation) = spec.as_ref().and_then(|spec| spec.output.as_ref()) {
+    let expected_kind = kind_annotation(&output_annotation.kind, p)?
+        .to_value_kind(&p.state.borrow().kinds)?;
+    let actual_kind = detach_value(&output).kind();
+    if !fsm_argument_kind_matches(&expected_kind, &actual_kind) {
+      return Err(MechError::new(
+        FsmArgumentKindMismatchError {
+          argument: "output".to_string(),
+          expected_kind,
+          actual_kind,
+        },
+        None,
+      )
+      .with_compiler_loc()
+      .with_tokens(fsm_pipe.start.tokens()));
+    }
+  }
+  Ok(output)
 }
 
 fn execute_fsm_pipe_impl(fsm: &FsmImplementation, state: &mut Value, call_env: &mut Environment, p: &Interpreter) -> MResult<Value> {
